@@ -114,6 +114,15 @@ def build_conn(b, seed, params=None):
             c.dcid_now["c"] = new_scid
             c.init = Q.initial_keys(new_scid)
             continue
+        if dg["pkts"][0]["t"] == "N":
+            # noise: a well-formed 1-RTT packet of generation `gen` (so that the unmasked key-phase bit is gen & 1) whose tag is damaged;
+            # the header-protection sample stays intact.  It takes no packet number away from the sender.
+            import copy
+            save = copy.deepcopy((c.pn[d], c.largest_seen[d]))
+            raw, _m = c.pkt(d, "a", Q.f_ping() + Q.f_padding(24), gen=dg["pkts"][0]["gen"])
+            c.pn[d], c.largest_seen[d] = save
+            c.raw(d, raw[:-1] + bytes([raw[-1] ^ 0x5A]), "NOISE").packets = [_m]
+            continue
         parts = []
         for pk in dg["pkts"]:
             fr, sd, cd = frames(pk, d)
